@@ -121,6 +121,19 @@ def check_property(prop: str, tier: str, seed: int) -> int:
         r = run_verus(asm, out, rlimit=int(cfg.get("rlimit", 40)))
         checker_cmds.append(r.cmd)
         smt_ms += r.smt_ms
+        if tier == "thorough" and not r.undecided:
+            # proof-stability pass: other Z3 seed, doubled resource limit; a unit that is discharged under one
+            # seed and not the other is unstable => undecided, never a violation
+            r2 = run_verus(asm, out.replace(".rs", "_seed2.rs"), rlimit=2 * int(cfg.get("rlimit", 40)),
+                           extra=["--smt-option", "smt.random_seed=%d" % (seed + 7)])
+            checker_cmds.append(r2.cmd)
+            smt_ms += r2.smt_ms
+            f1 = set((f.function or "?") for f in r.failures)
+            f2 = set((f.function or "?") for f in r2.failures)
+            if r2.undecided:
+                undecided += ["%s (stability pass): %s" % (tpl, x) for x in r2.undecided]
+            elif f1 != f2:
+                undecided.append("%s: unstable proof, differs between solver seeds: %s" % (tpl, ",".join(sorted(f1 ^ f2))))
         for u in asm.units:
             units_ev.append({"unit": u.uid, "file": u.file, "item": u.item, "lines": [u.line_start, u.line_end],
                              "sha256": u.sha256, "logging_statements_dropped": u.drops, "awaits_removed": u.awaits,
